@@ -149,6 +149,49 @@ def run(tier: str) -> int:
         why = mon.why.get(last, '')
         chk.violation('lock-order:' + f.name, '%s: %s\npath:\n%s\n(a thread that holds bin A and waits for bin B while another holds B and waits for A never terminates; the path is the static witness, the deadlock itself needs two threads)' % (
             f.name, why, P.describe_path(f, r.path)), P.describe_path(f, r.path), 'lock_order_%s.txt' % re.sub(r'[^A-Za-z0-9]+', '_', f.name))
+    # ---- observation (NOT part of the verdict; C11 quantifies over interleavings, i.e. sequentially consistent executions):
+    # the park/unpark handshake of the tree-bin lock as a store-buffering litmus under RC11.  Writer: swap(waiter) ; load(lock_state).
+    # Last reader: fetch_add(lock_state) ; load(waiter).  The lost wake-up is the outcome "reader sees waiter == null AND writer
+    # reads the stale lock_state"; it is forbidden iff all four accesses are SeqCst (one total order S over them).
+    try:
+        import z3
+        from .c15 import ordering_of
+        ords = {}
+        g = prog.get('node::TreeBin::contended_lock')
+        for b in g.blocks.values():
+            t = b.term
+            if t.kind == 'call':
+                n = P.callee_name(t)
+                os_ = [ordering_of(g, a) for a in t.args if 'Ordering' in g.locals.get(a.place.local if a.place else -1, '')]
+                if re.search(r'atomic::Atomic(I64|<i64>)?::load$', n) and os_:
+                    ords['writer re-reads lock_state'] = os_[0]
+                if n.endswith('reclaim::Atomic::swap') and os_ and 'writer publishes its handle (swap waiter)' not in ords:
+                    ords['writer publishes its handle (swap waiter)'] = os_[0]
+        g = prog.get('node::TreeBin::find')
+        for b in g.blocks.values():
+            t = b.term
+            if t.kind == 'call':
+                n = P.callee_name(t)
+                os_ = [ordering_of(g, a) for a in t.args if 'Ordering' in g.locals.get(a.place.local if a.place else -1, '')]
+                if re.search(r'::fetch_(add|sub)$', n) and os_:
+                    ords['last reader leaves (fetch_add lock_state)'] = os_[0]
+        ords['last reader loads waiter (Guard::protect)'] = 'SeqCst'
+        if len(ords) == 4:
+            ev = list(ords)
+            pos = {e: z3.Int('S_%d' % i) for i, e in enumerate(ev)}
+            sc = {e: ords[e] == 'SeqCst' for e in ev}
+            sol = z3.Solver()
+            sol.add(z3.Distinct(*pos.values()))
+            a, b_, c, d = 'writer publishes its handle (swap waiter)', 'writer re-reads lock_state', 'last reader leaves (fetch_add lock_state)', 'last reader loads waiter (Guard::protect)'
+            for x, y in ((a, b_), (b_, c), (c, d), (d, a)):       # sb, rb, sb, rb of the bad outcome
+                if sc[x] and sc[y]:
+                    sol.add(pos[x] < pos[y])
+            allowed = C.check(sol, 'C11 observation: park/unpark handshake litmus') == 'sat'
+            chk.coverage['observation_weak_memory_handshake'] = {
+                'orderings': ords, 'lost_wakeup_allowed_under_RC11': allowed,
+                'note': 'not part of the verdict: C11 quantifies over interleavings (sequentially consistent); no SC execution shows it, x86 and ARMv8 ldar cannot, an RCpc acquire (ldapr) could. See DESIGN.md 9.4.'}
+    except Exception as e:      # an observation must never break the check
+        chk.coverage['observation_weak_memory_handshake'] = {'error': str(e)[:200]}
     # ---- (2)
     scs = scenarios(tier)
     results = run_conc(scs)
